@@ -6,7 +6,7 @@
    fields, values or on their magnitudes). *)
 From Coq Require Import List NArith ZArith Bool.
 From PV Require Import Model.MiniProto Model.Lower Model.Validate Model.ValiditySpec Model.ProtocDescriptor.
-From PV Require Import Proofs.ValidateRanges Proofs.Validate Proofs.ValidateJson.
+From PV Require Import Proofs.ValidateRanges Proofs.Validate Proofs.ValidateJson Proofs.ValidateBasic.
 Import ListNotations.
 Open Scope Z_scope.
 
@@ -86,6 +86,15 @@ Theorem C01_validate_field_iff : forall syn fd,
 Proof. exact validate_field_iff_lemma. Qed.
 Print Assumptions C01_validate_field_iff.
 
+(* ---- composition over the whole descriptor (validate_sound_complete at the level of
+   validateBasic): for every file descriptor whose ranges are non-empty intervals and whose names
+   are non-empty (what the construction guarantees when it reported nothing), the walk of
+   validateBasic over messages, fields, nested messages to any depth, enums and extensions reports
+   nothing iff no import is repeated and every message, enum, field and extension is valid ---- *)
+Theorem C01_validate_basic_iff : forall d, file_wf d -> (validate_basic d = [] <-> file_valid d).
+Proof. exact validate_basic_iff_lemma. Qed.
+Print Assumptions C01_validate_basic_iff.
+
 (* ---- F2: JSON names ---- *)
 (* proto3 / editions: no error iff default names pairwise distinct and effective names pairwise distinct *)
 Theorem C01_json_compliant_iff : forall fs,
@@ -123,6 +132,4 @@ Example C01_nonvacuous :
   in_sorted_ranges Z.gtb (sort_rngs [(5, 10); (1, 5)]) 9 = Some true /\
   in_sorted_ranges Z.gtb (sort_rngs [(5, 10); (1, 5)]) 10 = Some false /\
   check_tag 19000 field_max = Some ETag19000 /\ check_tag 536870911 field_max = None.
-Proof.
-  split; [repeat constructor; unfold wf_ho; cbn; reflexivity|]. repeat split; vm_compute; reflexivity.
-Qed.
+Proof. exact c01_example. Qed.
